@@ -2,7 +2,8 @@
 
 Decided: L1 no live drop of a message or of an un-exhausted source, L2 no clone, L7 no lossy
 container/iterator operation, K3 index/return pairing, L6 end-of-stream discipline, O1 key-based
-heap comparator.  Not decided: ordering by reception time (heap semantics), tie behaviour."""
+heap comparator, O2 merge key = reception time of the head message, O3 direction of the heap order
+(finite model of field orderings).  Not decided: tie behaviour between sources; sortedness of the sources is assumed."""
 import re
 from facts import Operand
 import guards
@@ -14,14 +15,14 @@ LEVEL = 'proof'
 EXPLANATION = ('All normal CFG paths of the two multi-source iterators are explored with drop-flag and enum-variant '
                'propagation; a message-carrying value may only be dropped when its own next()/pop() returned None.')
 ASSUMPTIONS = [
-    'decides structural clauses only: ordering of the merged stream by reception time and tie behaviour are NOT decided',
+    'decides structural clauses only: ordering of the merged stream is decided as (key = reception time, smallest first); that each source is itself sorted is the premise of the property; tie behaviour between sources is NOT decided',
     'BinaryHeap/Vec/Box from std behave as documented; unwinding paths are outside the rule',
     'a generic source container `O` (type parameter) is not tracked as message-carrying',
 ]
 
 MANIFEST = {'text': 'proof (all normal paths of both multi-source iterators) of: no message-carrying value (message, source, heap entry) is dropped unless its own next()/pop() returned None, no clone, '
                     'no lossy container operation, index/return pairing, end of stream only after the container of sources is exhausted, key-based heap comparator; '
-                    'the constructors drop a container of sources only behind a proof that it holds exactly the one source taken (len() == 1 / exact size_hint). Ordering by reception time is not decided.'}
+                    'the constructors drop a container of sources only behind a proof that it holds exactly the one source taken (len() == 1 / exact size_hint). Ordering by reception time is decided through its two structural halves only (O2: the heap key is the reception time of the head message; O3: the heap hands out the smallest key first). Added: the direction of the merge heap order is decided over the finite model of field orderings (reverse of the key order for the max-heap; cmp and partial_cmp agree); that the key is the reception time is O2.'}
 
 SRC_TY = 'dyn std::iter::Iterator<Item = adlt::dlt::DltMessage>'
 
@@ -80,6 +81,8 @@ def run(F, chk):
     comparators.check(F, O1, lambda b: b.impl_self and any(b.impl_self.startswith(t) for t in tys), floor=1)
     O2 = chk.rule('O2', 'the merge heap is ordered by the reception time of the head message itself (directly, or through a key field stored verbatim)')
     check_merge_key(F, tys, O2)
+    O3 = chk.rule('O3', 'the merge heap hands out the smallest key first: for every ordering of the compared fields with different primary keys the entry order is the reverse of the key order (plain order under Reverse<>); Ord::cmp and the PartialOrd methods agree (decided over the finite model of field orderings)')
+    check_merge_direction(F, tys, O3)
 
 
 def is_self_index(e):
@@ -267,6 +270,69 @@ def check_single_source_shortcut(F, L8):
 # ---------------------------------------------------------------------------------------------
 # O2: the merge key is the reception time itself
 
+def check_merge_direction(F, tys, O3):
+    """BinaryHeap is a max-heap: the merged stream is ascending only if the entry order is the reverse of the key order (or the
+    entries are wrapped in Reverse).  The comparator touches its arguments only through comparisons, so ordmodel tabulates it
+    for every ordering of the fields it reads; rows whose first-read (primary) key differs must give the opposite sign.  Ties
+    on the primary key may be resolved any way (the property says nothing about messages of different sources with equal
+    reception times) but identically by cmp and partial_cmp, since the heap uses <= of PartialOrd."""
+    import ordmodel
+    n = 0
+    for ty in sorted(tys):
+        adt = F.adts.get(ty)
+        if adt is None or not any('adlt::dlt::DltMessage' == f['t'] for v in adt['variants'] for f in v['fields']):
+            continue          # the heap entry holds the head message next to its source
+        wrapped = None
+        for p, a in F.adts.items():
+            for v in a['variants']:
+                for f in v['fields']:
+                    if 'BinaryHeap<' in f['t'] and ty in f['t']:
+                        wrapped = 'Reverse<' in f['t']
+        if wrapped is None:
+            continue
+        want = 1 if wrapped else -1
+        tables = {}
+        for b in F.order:
+            if (b.impl_self or '').split('<')[0] != ty or b.impl_trait not in ('std::cmp::Ord', 'std::cmp::PartialOrd'):
+                continue
+            nm = b.path.split('::')[-1]
+            pred = {'lt': 'Lt', 'le': 'Le', 'gt': 'Gt', 'ge': 'Ge'}.get(nm)
+            if nm not in ('cmp', 'partial_cmp') and pred is None:
+                continue
+            n += 1
+            O3.sites += 1
+            O3.fn(b.path)
+            try:
+                table = ordmodel.decision_table(F, b, result='bool' if pred else 'ord')
+            except ordmodel.Undecided as e:
+                O3.violation(('merge-order-undecided', b.path), 'the order %s of the merge heap entry leaves the ordering model (%s)' % (b.path, e), where=b.loc(None))
+                continue
+            O3.paths += len(table)
+            bad = None
+            for val, res in table:
+                if not val:
+                    bad = (val, res, 'the result does not depend on any field of the entries')
+                    break
+                r = val[0][1]
+                if r == 0:
+                    continue
+                exp = want * r
+                if pred:
+                    exp = int(ordmodel.REL_OPS[pred](exp))
+                if res != exp:
+                    bad = (val, res, 'with %s %s of the first entry the result is %s, expected %s' % ('.'.join(val[0][0]), '<=>'[r + 1], res, exp))
+                    break
+            if bad:
+                O3.violation(('merge-order-direction', b.path), '%s does not make the max-heap hand out the smallest key first: %s — the merged stream is not ascending by reception time' % (b.path, bad[2]), where=b.loc(None))
+            else:
+                O3.ok(sample={'function': b.path, 'orderings_decided': len(table), 'direction': 'reversed (max-heap used as min-heap)' if not wrapped else 'plain under Reverse<>'})
+            if not pred:
+                tables[nm] = sorted((tuple(v), r) for v, r in table)
+        if 'cmp' in tables and 'partial_cmp' in tables and tables['cmp'] != tables['partial_cmp']:
+            O3.violation(('merge-order-cmp-partial-cmp-differ', ty), 'Ord::cmp and PartialOrd::partial_cmp of %s decide differently: BinaryHeap orders by PartialOrd (<=), the rest of the code by Ord' % ty)
+    O3.floor('order functions of the merge heap entry', n, 2)
+
+
 def check_merge_key(F, tys, O2):
     """"if every source is ordered by reception time, the merged stream is ordered by reception time": the heap of source heads
     must be ordered by the head message's `reception_time_us` itself.  The comparator of the heap entry compares either that
@@ -287,6 +353,14 @@ def check_merge_key(F, tys, O2):
                 for a in blk.term.args[:2]:
                     if a.place is not None:
                         pl = cfg.origin_of_operand(a)
+                        # `let own_time = self.m.reception_time_us; own_time.cmp(..)`: a named copy of the field (arguments are not mutated)
+                        for _ in range(4):
+                            if pl is not None and not pl.p and pl.l > body.arg_count:
+                                sd0 = cfg.single_def(pl.l)
+                                if sd0 is not None and sd0[1] != 'call' and sd0[2].rv['k'] in ('use', 'cast') and Operand(sd0[2].rv['o']).place is not None:
+                                    pl = cfg.origin_of_operand(Operand(sd0[2].rv['o']))
+                                    continue
+                            break
                         fl = [e for e in (pl.p if pl is not None else []) if e['k'] == 'f']
                         if fl:
                             keys.add((fl[-1].get('o'), fl[-1]['n'], fl[-1]['i']))
